@@ -8,7 +8,7 @@ from fw import g_list, g_nats, g_opt
 
 PID = 'C18'
 CHK = 'Chk_C18'
-IMPORTS = ('Restore',)
+IMPORTS = ('Restore', 'RestorePhases')
 SHARD = 40
 OPTS = ['gc', 'G', 'coverage', 'profile', 'buffer', 'warnings', 'D']
 ENDINGS = ['normal', 'failing', 'hook_raise', 'kbd', 'stop']
@@ -160,7 +160,7 @@ def expected_features(c, before):
 
 def to_coq(c, o):
     if o.get('driver_failed'):
-        return '{| feats := []; g_before := [(0%nat, 1%nat)]; g_probe := None; probe_fields := []; g_after := [(0%nat, 2%nat)]; all_fields := [0%nat] |}'
+        return '{| feats := []; feats3 := []; g_before := [(0%nat, 1%nat)]; g_probe := None; probe_fields := []; g_after := [(0%nat, 2%nat)]; all_fields := [0%nat] |}'
     table = {}
 
     def code(f, s):
@@ -179,8 +179,17 @@ def to_coq(c, o):
         fl.append(g_list(['(%d%%nat, %d%%nat)' % (f, code(f, v if v is not None else (probe[0][str(f)] if probe else '?')))
                           for f, v in ws]))
     pf = [f for f in FIELDS if f != 7]
-    return '{| feats := %s; g_before := %s; g_probe := %s; probe_fields := %s; g_after := %s; all_fields := %s |}' % (
-        g_list(fl), g(before), g_opt(g(probe[0]) if probe else None), g_nats(pf), g(after), g_nats(FIELDS))
+    # phase in which each field is written / undone: the tracer is started in global_setup and stopped in early_teardown, the
+    # profiler is enabled in late_setup and disabled in early_teardown, the capture streams live inside the test phase
+    late = {6, 8, 9}
+    early = {4, 5, 10, 6, 8, 9}
+    f3 = []
+    for ws in feats:
+        f3.append(g_list(['{| w_field := %d%%nat; w_val := %d%%nat; w_late := %s; w_early := %s |}' % (
+            f, code(f, v if v is not None else (probe[0][str(f)] if probe else '?')), 'true' if f in late else 'false',
+            'true' if f in early else 'false') for f, v in ws]))
+    return '{| feats := %s; feats3 := %s; g_before := %s; g_probe := %s; probe_fields := %s; g_after := %s; all_fields := %s |}' % (
+        g_list(fl), g_list(f3), g(before), g_opt(g(probe[0]) if probe else None), g_nats(pf), g(after), g_nats(FIELDS))
 
 
 def sample_view(c, o):
